@@ -124,7 +124,7 @@ Proof.
   intros v s I. unfold set_coords. destruct (same_crd (crd s) v); [exists []; apply call_refl|].
   destruct (comps s) as [|ck cs] eqn:E.
   - exists []. eapply call_silent; [apply call_refl | reflexivity ..].
-  - destruct (match v with Some co => co_ndim co =? ndim s | None => true end); [|exists []; apply call_refl].
+  - destruct (coords_ok v s); [|exists []; apply call_refl].
     cbv beta iota zeta delta [fst]. pose proof I as [WI _ _ _ q].
     destruct (ann_update_world (length (shape s)) (set_crd s v) (winv_set_crd s v WI) q) as [out [A O _ _]].
     exists out. constructor; [|exact O].
@@ -135,7 +135,7 @@ Lemma update_comps_loop_quiet : forall l s, let s1 := fst (update_comps_loop l s
   K s1 = K s /\ hub s1 = hub s /\ log s1 = log s /\ queue s1 = queue s /\ ext s1 = ext s.
 Proof.
   induction l as [|[c sh] l IH]; intros s; simpl; [repeat split|].
-  destruct (assoc c (comps s)) as [k|] eqn:Ea; [|repeat split].
+  destruct (assoc c (comps s)) as [k|] eqn:Ea; [|destruct (memz c (ext s)); repeat split].
   destruct (negb (eqlz sh (shape s))); [repeat split|]. destruct (negb (is_main k)); [repeat split|].
   destruct (IH (set_comps s (put c (KMain sh) (comps s)))) as (A & B & C & D & E). cbv zeta in *.
   repeat split; try assumption. rewrite A. unfold K. simpl. rewrite keys_put.
